@@ -82,6 +82,16 @@ func raceOps() []raceOp {
 		{"Stop", func(e *raceEnv) { e.w.Stop() }},
 		{"Restart", func(e *raceEnv) { e.w.Restart() }},
 		{"WaitUntilFinished", func(e *raceEnv) { e.w.WaitUntilFinished() }},
+		{"Bind", func(e *raceEnv) {
+			// a further queue bound to the running worker, and a job through it
+			k := Prio
+			if e.q.Kind == Prio {
+				k = Fifo
+			}
+			nq := e.w.Bind(k, nil)
+			e.next++
+			nq.Add(300+e.next, AddOpt{})
+		}},
 		{"BatchRead", func(e *raceEnv) {
 			if e.batch != nil && e.batch.Results != nil {
 				e.h.ReadStream(e.batch)
@@ -162,7 +172,7 @@ func init() {
 				only := ""
 				if !base.full {
 					// quick tier: the pairs that involve the base state's special resource; the rest in thorough
-					special := map[string]bool{"BatchRead": true, "AddAll": true, "Restart": true, "Stop": true, "StatusCtx": true, "Add": true, "Counts": true, "Purge": true}
+					special := map[string]bool{"BatchRead": true, "AddAll": true, "Restart": true, "Stop": true, "StatusCtx": true, "Add": true, "Counts": true, "Purge": true, "Bind": true}
 					if base.name == "dispatching" {
 						special = map[string]bool{"JobClose": true, "Status": true, "WaitResult": true, "Purge": true, "Add": true, "Counts": true, "PauseResume": true}
 					}
